@@ -10,6 +10,8 @@ rational arithmetic:
    text readers   value in memory == the double nearest to the decimal in the file
    hdf            exact equality (integers for integer typed columns holding integral values)
    everything an operation does not touch is unchanged
+   hdf routes keep the sign of zero (same_ds; text routes are not asked for it: "-0.0000" is within
+   the print precision)
 
 Python's % operator is not used anywhere as an oracle.
 """
@@ -22,18 +24,81 @@ import c18_replay as R
 TEN = Fraction(10)
 HALF = Fraction(1, 2)
 
-# documented print precision per title (pinned copy of the classes of columnfile.py:38-130)
-CLASS_TITLES = {
-    "f4": ["fc", "sc", "omega", "f_raw", "s_raw", "sigf", "sum_intensity", "IMax_int", "dety", "gx", "tth", "eta",
-           "drlv2", "tth_hist_prob", "sum_intensity^2", "avg_intensity", "xl"],
-    "f0": ["Number_of_pixels", "IMax_f", "Min_s", "spot3d_id", "h", "k", "l", "labels", "Grain", "grain_id",
-           "npk2d", "onfirst", "spot4d_id", "IKEY"],
-    "f12": ["U11", "UBI11", "U23", "UBI33", "UBI12", "U31"],
-    "e4": ["eps11", "eps12_s", "sig23", "sig11_s", "e11e11", "e33e12_s", "s23s13", "s11s22_s", "eps33", "sig12"],
-    "f6": ["foo", "xyz_1", "a.b", "Intensity", "sc2", "my-col", "zz9"],
-}
+# ------------------------------------------------------------------------------------------
+# PINNED copies of the four class lists of ImageD11/columnfile.py:38-109 of the unchanged tree, as
+# literal data (never imported from the module under test), with the print precision documented
+# for each class (columnfile.py:123-130; a title in no list is written with "%f").  INTS is also
+# the list the two hdf writers test to store int64 (columnfile.py:596,631).
+PINNED_FLOATS = [        # "%.4f"
+    "fc", "sc", "omega", "f_raw", "s_raw", "sigf", "sigs", "covsf", "sigo", "covso", "covfo",
+    "sum_intensity", "sum_intensity^2", "IMax_int", "IMax_o", "avg_intensity", "Min_o", "Max_o",
+    "dety", "detz", "gx", "gy", "gz", "hr", "kr", "zr", "xl", "yl", "zl", "drlv2", "tth", "eta",
+    "tth_hist_prob"]
+PINNED_INTS = [          # "%.0f", int64 in hdf
+    "Number_of_pixels", "IMax_f", "IMax_s", "Min_f", "Max_f", "Min_s", "Max_s", "spot3d_id",
+    "spot4d_id", "h", "k", "l", "onfirst", "onlast", "labels", "Grain", "grainno", "grain_id",
+    "IKEY", "npk2d"]
+PINNED_LONGFLOATS = [    # "%.12f"
+    "U11", "UBI11", "U12", "UBI12", "U13", "UBI13", "U21", "UBI21", "U22", "UBI22", "U23", "UBI23",
+    "U31", "UBI31", "U32", "UBI32", "U33", "UBI33"]
+PINNED_EXPONENTIALS = [  # "%.4e"
+    "eps11", "eps11_s", "sig11", "sig11_s", "eps22", "eps22_s", "sig22", "sig22_s",
+    "eps33", "eps33_s", "sig33", "sig33_s", "eps23", "eps23_s", "sig23", "sig23_s",
+    "eps13", "eps13_s", "sig13", "sig13_s", "eps12", "eps12_s", "sig12", "sig12_s",
+    "e11e11", "e11e11_s", "s11s11", "s11s11_s", "e11e22", "e11e22_s", "s11s22", "s11s22_s",
+    "e11e33", "e11e33_s", "s11s33", "s11s33_s", "e11e23", "e11e23_s", "s11s23", "s11s23_s",
+    "e11e13", "e11e13_s", "s11s13", "s11s13_s", "e11e12", "e11e12_s", "s11s12", "s11s12_s",
+    "e22e22", "e22e22_s", "s22s22", "s22s22_s", "e22e33", "e22e33_s", "s22s33", "s22s33_s",
+    "e22e23", "e22e23_s", "s22s23", "s22s23_s", "e22e13", "e22e13_s", "s22s13", "s22s13_s",
+    "e22e12", "e22e12_s", "s22s12", "s22s12_s", "e33e33", "e33e33_s", "s33s33", "s33s33_s",
+    "e33e23", "e33e23_s", "s33s23", "s33s23_s", "e33e13", "e33e13_s", "s33s13", "s33s13_s",
+    "e33e12", "e33e12_s", "s33s12", "s33s12_s", "e23e23", "e23e23_s", "s23s23", "s23s23_s",
+    "e23e13", "e23e13_s", "s23s13", "s23s13_s", "e23e12", "e23e12_s", "s23s12", "s23s12_s",
+    "e13e13", "e13e13_s", "s13s13", "s13s13_s", "e13e12", "e13e12_s", "s13s12", "s13s12_s",
+    "e12e12", "e12e12_s", "s12s12", "s12s12_s"]
+# names in no list: written with "%f" (6 decimals), float64 in hdf
+UNKNOWN_TITLES = ["foo", "xyz_1", "a.b", "Intensity", "sc2", "my-col", "zz9", "ring", "phase_id", "Lsqr"]
+
+CLASS_TITLES = {"f4": PINNED_FLOATS, "f0": PINNED_INTS, "f12": PINNED_LONGFLOATS, "e4": PINNED_EXPONENTIALS,
+                "f6": UNKNOWN_TITLES}
+assert (len(PINNED_FLOATS), len(PINNED_INTS), len(PINNED_LONGFLOATS), len(PINNED_EXPONENTIALS)) == (33, 20, 18, 108)
 CLASS_OF = {t: c for c, ts in CLASS_TITLES.items() for t in ts}
-MODEL_CLASS = {"sc": "f4", "Number_of_pixels": "f0", "eps11": "e4", "UBI11": "f12", "foo": "f6"}
+assert len(CLASS_OF) == 179 + len(UNKNOWN_TITLES)          # no title in two classes
+# titles of Storage.tla and their class (FmtOf / IsInt of the specification)
+MODEL_CLASS = {"sc": "f4", "Number_of_pixels": "f0", "eps11": "e4", "e11e12_s": "e4", "s22s33": "e4",
+               "UBI11": "f12", "foo": "f6"}
+assert all(CLASS_OF[t] == c for t, c in MODEL_CLASS.items())
+
+
+def title_batches():
+    """the title enumeration: batch k maps every model title of table 7 (Storage.tla) to the k-th title
+    of its class; the union of the batches is every pinned title and every unknown name"""
+    slots = {}
+    for t in sorted(MODEL_CLASS):
+        slots.setdefault(MODEL_CLASS[t], []).append(t)
+    nb = max(-(-len(CLASS_TITLES[c]) // len(ts)) for c, ts in slots.items())
+    out = []
+    for k in range(nb):
+        ren = {}
+        for c, ts in slots.items():
+            names = CLASS_TITLES[c]
+            for j, t in enumerate(ts):
+                ren[t] = names[(k * len(ts) + j) % len(names)]
+        assert len(set(ren.values())) == len(ren)
+        out.append(ren)
+    return out
+
+
+def formats_note():
+    """the module's table against the pinned copy: a NOTE for the evidence file, never a verdict"""
+    from ImageD11 import columnfile as C
+    prec = {"%.4f": "f4", "%.0f": "f0", "%.12f": "f12", "%.4e": "e4"}
+    mod = {t: prec.get(f, f) for t, f in C.FORMATS.items()}
+    pin = {t: c for t, c in CLASS_OF.items() if c != "f6"}
+    return {"pinned_titles": len(pin), "module_titles": len(mod),
+            "only_in_module": sorted(set(mod) - set(pin))[:20], "only_pinned": sorted(set(pin) - set(mod))[:20],
+            "other_class_in_module": sorted(t for t in pin if t in mod and mod[t] != pin[t])[:20],
+            "ints_differ": sorted(set(C.INTS) ^ set(PINNED_INTS))[:20]}
 
 
 def floor_log10(X):
@@ -239,13 +304,15 @@ def cast_hdf(t, col):
     return ("f", [float(v) for v in vals])
 
 
-def same_ds(exp, got, where):
+def same_ds(exp, got, where, signed=True):
     need(exp[0] == got[0], "%s: dtype class expected %s got %s" % (where, exp[0], got[0]))
     need(len(exp[1]) == len(got[1]), "%s: length expected %d got %d" % (where, len(exp[1]), len(got[1])))
     for i, (a, b) in enumerate(zip(exp[1], got[1])):
         if a is None:
             continue
         need(a == b and type(a) == type(b), "%s[%d]: expected %r got %r" % (where, i, a, b))
+        if signed and isinstance(a, float) and a == 0.0:      # exactly: the sign of zero as well
+            need(math.copysign(1.0, a) == math.copysign(1.0, b), "%s[%d]: expected %r got %r" % (where, i, a, b))
 
 
 def nearest_double(d):
@@ -296,13 +363,30 @@ def pick_group(fobs, a):
     return list(groups)[0]
 
 
+def other_path(prev, p):
+    qs = [q for q in prev["fs"] if q != p]
+    return qs[0] if len(qs) == 1 else None
+
+
+def hdf_source(a, prev):
+    """the table an hdf writer is given: the object o, or (ConvHdf) what the text file at the other
+    path denotes (decimals -> nearest doubles; the header is not stored by the hdf writers; the
+    observed decimals are Fractions and carry no sign of zero: ConvHdf is not asked for it)"""
+    if a["op"] != "ConvHdf":
+        return prev["mem"][a["o"]]
+    f = prev["fs"][other_path(prev, a["p"])]
+    need(f.get("k") == "text" and "cols" in f, "ConvHdf succeeded / was offered without a text columnfile")
+    return {"k": "table", "titles": list(f["titles"]),
+            "cols": {t: ("f", [nearest_double(d) for d in f["cols"][t]]) for t in f["titles"]}}
+
+
 def relations(family, a, prev, cur, nchecks):
     """value relations between the observations before and after operation a (raises Fail)"""
     op, o, p, g = a["op"], a["o"], a["p"], a["g"]
     ok = cur["res"] == "ok"
     touched_fs, touched_mem = None, None
-    if op in ("WriteText", "WriteHdf", "WriteHdfObj", "SavePars", "WriteGrains", "WriteUbis", "WriteGrainsH5",
-              "PutGrainH5", "WriteSparse"):
+    if op in ("WriteText", "WriteHdf", "WriteHdfObj", "ConvHdf", "SavePars", "WriteGrains", "WriteUbis",
+              "WriteGrainsH5", "PutGrainH5", "WriteSparse"):
         touched_fs = p
     else:
         touched_mem = o
@@ -321,8 +405,9 @@ def relations(family, a, prev, cur, nchecks):
         elif op in ("WriteHdfObj", "WriteGrainsH5") and prev["fs"][p]["k"] != "none":
             d = R.diff(prev["fs"][p], cur["fs"][p], "/fs/" + p)
             need(d is None, "refused write changed the file: %s" % d)
-        elif op == "WriteHdf" and prev["fs"][p]["k"] == "hdf":
-            src = prev["mem"][o]
+        elif op in ("WriteHdf", "ConvHdf") and prev["fs"][p]["k"] == "hdf" and not (
+                op == "ConvHdf" and prev["fs"][other_path(prev, p)].get("k") != "text"):
+            src = hdf_source(a, prev)
             old = prev["fs"][p]["groups"].get(g, {"ds": {}})["ds"]
             new = cur["fs"][p]["groups"][g]["ds"]
             for t, d in new.items():
@@ -330,9 +415,9 @@ def relations(family, a, prev, cur, nchecks):
                     try:
                         same_ds(old[t], d, "failed write, dataset %s" % t)
                     except Fail:
-                        same_ds(cast_hdf(t, src["cols"][t]), d, "failed write, dataset %s" % t)
+                        same_ds(cast_hdf(t, src["cols"][t]), d, "failed write, dataset %s" % t, op != "ConvHdf")
                 elif t in src["cols"]:
-                    same_ds(cast_hdf(t, src["cols"][t]), d, "failed write, new dataset %s" % t)
+                    same_ds(cast_hdf(t, src["cols"][t]), d, "failed write, new dataset %s" % t, op != "ConvHdf")
                 else:
                     need(t in old, "failed write created %s" % t)
                     same_ds(old[t], d, "failed write, untouched dataset %s" % t)
@@ -368,15 +453,15 @@ def relations(family, a, prev, cur, nchecks):
         for t, d in grp["ds"].items():
             nchecks[0] += len(d[1])
             same_ds(d, m["cols"][t], "column %s read from hdf" % t)
-    elif op in ("WriteHdf", "WriteHdfObj"):
-        src = prev["mem"][o]
+    elif op in ("WriteHdf", "WriteHdfObj", "ConvHdf"):
+        src = hdf_source(a, prev)
         old = prev["fs"][p]["groups"].get(g, {"ds": {}})["ds"] if prev["fs"][p]["k"] == "hdf" else {}
         need(cur["fs"][p]["k"] == "hdf" and g in cur["fs"][p]["groups"], "group missing after write")
         new = cur["fs"][p]["groups"][g]["ds"]
         for t in src["titles"]:
             need(t in new, "written title %s missing" % t)
             nchecks[0] += len(new[t][1])
-            same_ds(cast_hdf(t, src["cols"][t]), new[t], "dataset %s" % t)
+            same_ds(cast_hdf(t, src["cols"][t]), new[t], "dataset %s" % t, op != "ConvHdf")
         for t, d in new.items():
             if t not in src["cols"]:
                 need(t in old, "dataset %s appeared" % t)
@@ -414,7 +499,7 @@ def relations(family, a, prev, cur, nchecks):
                         nchecks[0] += 1
                         need(bound_ok("g6", gs["tr"][j], gf["tr"][j]), "grain %d t[%d]: wrote %s for %r" % (
                             i, j, gf["tr"][j], gs["tr"][j]))
-                for k in ("name", "npks", "nuniq"):
+                for k in ("name", "npks", "nuniq", "ii"):
                     need(gs[k] == gf[k], "grain %d %s expected %r got %r" % (i, k, gs[k], gf[k]))
         else:
             need(f["k"] == "utext" and len(f["ubis"]) == len(src), "number of ubis")
@@ -424,8 +509,8 @@ def relations(family, a, prev, cur, nchecks):
                     need(bound_ok("f6", gs["ubi"][j], u[j]), "ubi %d [%d]: wrote %s for %r" % (i, j, u[j], gs["ubi"][j]))
     elif op in ("ReadGrains", "ReadUbis"):
         f, m = prev["fs"][p], cur["mem"][o]["gl"]
-        items = f["gl"] if f["k"] == "gtext" else [{"ubi": u, "tr": None, "name": None, "npks": None, "nuniq": None}
-                                                   for u in f["ubis"]]
+        items = f["gl"] if f["k"] == "gtext" else [{"ubi": u, "tr": None, "name": None, "npks": None, "nuniq": None,
+                                                    "ii": None} for u in f["ubis"]]
         need(len(items) == len(m), "number of grains expected %d got %d" % (len(items), len(m)))
         for i, (gf, gm) in enumerate(zip(items, m)):
             for j in range(9):
@@ -436,31 +521,31 @@ def relations(family, a, prev, cur, nchecks):
                 need((gf["tr"] is None) == (gm["tr"] is None), "grain %d translation presence" % i)
                 if gf["tr"] is not None:
                     need([nearest_double(x) for x in gf["tr"]] == gm["tr"], "grain %d translation" % i)
-                for k in ("name", "npks", "nuniq"):
+                for k in ("name", "npks", "nuniq", "ii"):
                     need(gf[k] == gm[k], "grain %d %s expected %r got %r" % (i, k, gf[k], gm[k]))
             else:
-                need(gm["tr"] is None and gm["name"] is None, "bare ubi carries attributes")
+                need(gm["tr"] is None and gm["name"] is None and gm["ii"] is None, "bare ubi carries attributes")
     elif op == "WriteGrainsH5":
-        d = R.diff(prev["mem"][o]["gl"], cur["fs"][p]["groups"][g]["gl"], "grains")
+        d = R.diff(prev["mem"][o]["gl"], cur["fs"][p]["groups"][g]["gl"], "grains", signed=True)
         need(d is None, "h5 grains differ from memory: %s" % d)
         nchecks[0] += 12 * len(prev["mem"][o]["gl"])
     elif op == "ReadGrainsH5":
-        d = R.diff(prev["fs"][p]["groups"][g]["gl"], cur["mem"][o]["gl"], "grains")
+        d = R.diff(prev["fs"][p]["groups"][g]["gl"], cur["mem"][o]["gl"], "grains", signed=True)
         need(d is None, "grains in memory differ from h5: %s" % d)
     elif op == "PutGrainH5":
         new, old = prev["mem"][o]["gl"][0], prev["fs"][p]["groups"][g]["gl"]
         got = cur["fs"][p]["groups"][g]["gl"]
         need(len(got) == len(old), "number of grains changed")
         need(got[1:] == old[1:], "other grains changed")
-        need(got[0]["ubi"] == new["ubi"], "ubi not replaced")
-        for k in ("tr", "name", "npks", "nuniq"):
+        need(R.diff(new["ubi"], got[0]["ubi"], "ubi", signed=True) is None, "ubi not replaced")
+        for k in ("tr", "name", "npks", "nuniq", "ii"):
             exp = new[k] if new[k] is not None else old[0][k]
-            need(got[0][k] == exp, "slot 0 %s expected %r got %r" % (k, exp, got[0][k]))
+            need(R.diff(exp, got[0][k], k, signed=True) is None, "slot 0 %s expected %r got %r" % (k, exp, got[0][k]))
     elif op == "Reverse":
         need(cur["mem"][o]["gl"] == prev["mem"][o]["gl"][::-1], "not reversed")
     elif op == "WriteSparse":
         src, grp = prev["mem"][o], cur["fs"][p]["groups"][g]
-        for k in ("shape", "row", "col"):
+        for k in ("shape", "row", "col", "itype"):
             need(grp[k] == src[k], "%s expected %r got %r" % (k, src[k], grp[k]))
         old = prev["fs"][p]["groups"].get(g, {"px": {}})["px"] if prev["fs"][p]["k"] == "hdf" else {}
         for n, px in src["px"].items():
@@ -471,12 +556,12 @@ def relations(family, a, prev, cur, nchecks):
             nchecks[0] += len(px["data"])
         for n, px in grp["px"].items():
             if n not in src["px"]:
-                need(n in old and R.diff(old[n], px) is None, "pixel array %s appeared or changed" % n)
+                need(n in old and R.diff(old[n], px, signed=True) is None, "pixel array %s appeared or changed" % n)
     elif op == "ReadSparse":
         grp, m = prev["fs"][p]["groups"][g], cur["mem"][o]
-        for k in ("shape", "row", "col"):
+        for k in ("shape", "row", "col", "itype"):
             need(grp[k] == m[k], "%s expected %r got %r" % (k, grp[k], m[k]))
-        d = R.diff(grp["px"], m["px"], "px")
+        d = R.diff(grp["px"], m["px"], "px", signed=True)
         need(d is None, "pixels differ: %s" % d)
 
 
@@ -488,7 +573,7 @@ def unrename(obs, back):
 
 
 def replay_widened(family, hist, seeds_raw, expA, expF, root, seed):
-    out = {"fail": None, "sig": None, "checks": 0, "seed": seed, "step": None}
+    out = {"fail": None, "sig": None, "checks": 0, "seed": seed, "step": None, "f32_columns": 0}
     try:
         # what a *failing* colfile_to_hdf leaves behind depends on the order of the titles, and the order
         # colfile_from_hdf gives depends on the names: histories with a failing WriteHdf keep the model's titles
@@ -511,7 +596,18 @@ def replay_widened(family, hist, seeds_raw, expA, expF, root, seed):
                 return _w.value(where, v, isint)
         else:
             vals = w.value
-        r = R.Runner(family, root, raw, variant=seed % 2, vals=vals)
+        # in-memory columns of another float width (the model is covariant in it: every law is stated on
+        # the values the object holds): each column is float32 with probability 0.15
+        f32 = set()
+        if family == "table":
+            for o in sorted(raw):
+                for t in raw[o]["titles"]:
+                    if w.rng.random() < 0.15:
+                        f32.add((o, t))
+        out["f32_columns"] = len(f32)
+        r = R.Runner(family, root, raw, variant=seed % 4, vals=vals,
+                     coldt=(lambda o, t: np.float32 if (o, t) in f32 else np.float64) if f32 else None,
+                     paths=sorted(expA[0]["fs"]))
     except Exception:
         out["crash"] = traceback.format_exc()
         return out
@@ -526,10 +622,10 @@ def replay_widened(family, hist, seeds_raw, expA, expF, root, seed):
             sreal = shape_world(cur)
             dA = dF = None
             if okA:
-                dA = R.diff(shape_world(rename_world(R.canon_world(expA[i], r.tok), w.rename)), sreal)
+                dA = R.diff(shape_world(rename_world(r.adapt(R.canon_world(expA[i], r.tok)), w.rename)), sreal)
                 okA = dA is None
             if okF:
-                dF = R.diff(shape_world(rename_world(R.canon_world(expF[i], r.tok), w.rename)), sreal)
+                dF = R.diff(shape_world(rename_world(r.adapt(R.canon_world(expF[i], r.tok)), w.rename)), sreal)
                 okF = dF is None
             if not okA and not okF:
                 out["fail"] = "step %d %s: structure: %s%s" % (i, R._opstr(hist[i]), dF or dA,
@@ -569,6 +665,17 @@ def selftest(root):
             raise common.MachineryError("selftest: bound oracle rejects %s for %r (%s)" % (good, x, fmt))
         if bound_ok(fmt, x, Fraction(bad)):
             raise common.MachineryError("selftest: bound oracle accepts %s for %r (%s)" % (bad, x, fmt))
+    # the hdf step laws tell -0.0 from 0.0, the pinned table is complete and the batches cover it
+    try:
+        same_ds(("f", [0.0, 1.5]), ("f", [-0.0, 1.5]), "selftest")
+        raise common.MachineryError("selftest: same_ds accepts -0.0 for 0.0")
+    except Fail:
+        pass
+    if R.diff([0.0], [-0.0], signed=True) is None or R.diff([0.0], [-0.0]) is not None:
+        raise common.MachineryError("selftest: signed diff")
+    seen = set(v for ren in title_batches() for v in ren.values())
+    if seen != set(CLASS_OF) or len([t for t in CLASS_OF if CLASS_OF[t] != "f6"]) != 179:
+        raise common.MachineryError("selftest: the title batches do not cover the pinned table")
     # a relation must reject a corrupted observation
     prev = {"fs": {"p1": {"k": "none"}}, "mem": {"o1": {"k": "table", "titles": ["sc"], "cols": {"sc": ("f", [0.12345])},
                                                          "pars": {}}}, "res": "ok"}
